@@ -301,7 +301,9 @@ def named_range_part(chk: core.Check) -> None:
 
     rng = chk.rng
     nr_reqs = []
-    names = ["a", "a b", "a.b", "a$b", "it's", "x y.z", "é漢", "a'b c", "Sheet1", "a''b", "a&b", "1", "A1", "a.b.c", "$", ".", "a b'c.d$e"]
+    names = ["a", "a b", "a.b", "a$b", "it's", "x y.z", "é漢", "a'b c", "Sheet1", "a''b", "a&b", "1", "A1", "a.b.c", "$", ".", "a b'c.d$e",
+             # the delimiters of the address syntax next to each other inside the name: quote + dot, dot + quote, quote + colon, dollar + quote
+             "a'.b", "'.", "x'.'y", "a'.b'.c", ".'", "a':b", "$'a", "a'.$B$2", "''.''"]
     for _ in range(chk.n(150, 3000)):
         names.append("".join(rng.choice(NAME_ALPHABET) for _ in range(rng.randint(1, 7))))
     for tname in names:
@@ -334,7 +336,7 @@ def named_range_part(chk: core.Check) -> None:
             chk.fail({**case, "base": base, "got": [b2.table_name, b2.crange]}, "base cell address does not read back")
     # hand-written addresses in the forms other producers write them
     for addr in ["$Sheet1.$A$1", "Sheet1.A1:B2", "$'a b'.$A$1:.$B$2", "'it" + "''" + "s'.C3", "$'x.y'.$AA$10:.$AB$11", " $T.$B$2 ",
-                 "$'a$b'.$A$1", "$'" + "''" + "'.$A$1", "$'a'.$A$1:$B$2"]:
+                 "$'a$b'.$A$1", "$'" + "''" + "'.$A$1", "$'a'.$A$1:$B$2", "$'a''.b'.$A$1", "$'a''.b'.$A$1:.$B$2", "'x''.''y'.C3"]:
         try:
             e = Element.from_tag(f'<table:named-range table:name="q" table:base-cell-address="{_esc(addr)}" table:cell-range-address="{_esc(addr)}"/>')
             ans = "ok " + enc_str(e.table_name) + " " + " ".join(map(str, e.crange))
